@@ -2,6 +2,7 @@ package rules
 
 import (
 	"go/token"
+	"go/types"
 	"sort"
 	"strings"
 
@@ -22,14 +23,14 @@ func init() {
 	core.Register(&core.Check{
 		ID: "C10", Level: "other", Title: "Layered state views agree with their backing store",
 		Technique: "sibling agreement of the tombstone convention (guard dominance in every layer-commit callback), three-valued decision sets of comparator tests, guard dominance for backend fall-through, constant/prefix agreement",
-		Explain: "Structural necessary conditions. (Tombstones) 'empty value = deleted' is applied identically wherever a layer is folded into the one below — CacheDB.Commit, OverlayDB.CommitTo and the ForEach callback of saveBlockToStateStore: the delete call is dominated by len(val)==0, the put call by its negation, both on the callback's own (key, val). (Reads) OverlayDB.Get and CacheDB.get consult the layer below only on the `unknown` edge of MemDB.Get, otherwise return the in-memory value (nil for a tombstone). (Scans) JoinIter.First/Next answer true only after len(value) != 0 (tombstones are skipped); in JoinIter.first/next the comparator result c = Compare(memKey, backKey) selects the in-memory entry exactly on c ∈ {-1,0} (newest layer wins on equal keys), marks FromBoth exactly on c == 0 and takes the backend entry exactly on c == 1 (three-valued decision sets intersected along the dominating tests). The in-memory range iterator treats Range.Limit as exclusive and Range.Start as inclusive (dbIter.fill rejects exactly on Compare(key, Limit) ∈ {0,1} and Compare(key, Start) ∈ {-1}), matching util.BytesPrefix and the LevelDB backend. (Prefix) CacheDB.Put/Get/Delete/NewIterator all use the constant ST_STORAGE, and Iter.Key strips exactly one byte. NOT decided: the join iterator's state machine over all histories, the skip list itself (C09).",
-		Run: runC10,
+		Explain:   "Structural necessary conditions. (Tombstones) 'empty value = deleted' is applied identically wherever a layer is folded into the one below — CacheDB.Commit, OverlayDB.CommitTo and the ForEach callback of saveBlockToStateStore: the delete call is dominated by len(val)==0, the put call by its negation, both on the callback's own (key, val). (Reads) OverlayDB.Get and CacheDB.get consult the layer below only on the `unknown` edge of MemDB.Get, otherwise return the in-memory value (nil for a tombstone). (Scans) JoinIter.First/Next answer true only after len(value) != 0 (tombstones are skipped); in JoinIter.first/next the comparator result c = Compare(memKey, backKey) selects the in-memory entry exactly on c ∈ {-1,0} (newest layer wins on equal keys), marks FromBoth exactly on c == 0 and takes the backend entry exactly on c == 1 (three-valued decision sets intersected along the dominating tests). The in-memory range iterator treats Range.Limit as exclusive and Range.Start as inclusive (dbIter.fill rejects exactly on Compare(key, Limit) ∈ {0,1} and Compare(key, Start) ∈ {-1}), matching util.BytesPrefix and the LevelDB backend. (Prefix) CacheDB.Put/Get/Delete/NewIterator all use the constant ST_STORAGE, and Iter.Key strips exactly one byte. NOT decided: the join iterator's state machine over all histories, the skip list itself (C09).",
+		Run:       runC10,
 	})
 	core.Register(&core.Check{
 		ID: "C11", Level: "other", Title: "Block state-change digest depends only on the net write set",
 		Technique: "effect reachability (no map iteration / goroutines under the digest), field coverage of the hashing callback, who-may-mutate on the MemDB buffers (append-only), record-consistency of overwrites, call ordering in executeBlock",
-		Explain: "Structural necessary conditions. (Order) ChangeHash, CommitTo and the write-set consumer traverse the overlay only through MemDB.ForEach (an ordered linked traversal); no function reachable from ChangeHash ranges over a Go map, starts a goroutine or selects. (Coverage) ChangeHash's callback feeds exactly key then val of each entry to the hasher. (Net effect) the overlay is mutated only through MemDB.Put (Delete = Put(key, nil)); MemDB.kvData is append-only — no element store, no copy() into it, only append and the Reset truncation — so a value once recorded is never patched in place; on overwrite Put records len(value) as the new value length on every path and re-points the entry at a freshly appended key‖value whenever the value is non-empty, so an entry's recorded value is exactly the last value written; the MemDB buffers are written only by Put, Reset and the constructor. (Same object) in executeBlock result.Hash = overlay.ChangeHash() and result.WriteSet = overlay.GetWriteSet() are taken from the same overlay, after the loop over the block's transactions completed. NOT decided: that ForEach yields ascending key order (skip-list invariant, C09).",
-		Run: runC11,
+		Explain:   "Structural necessary conditions. (Order) ChangeHash, CommitTo and the write-set consumer traverse the overlay only through MemDB.ForEach (an ordered linked traversal); no function reachable from ChangeHash ranges over a Go map, starts a goroutine or selects. (Coverage) ChangeHash's callback feeds exactly key then val of each entry to the hasher. (Net effect) the overlay is mutated only through MemDB.Put (Delete = Put(key, nil)); MemDB.kvData is append-only — no element store, no copy() into it, only append and the Reset truncation — so a value once recorded is never patched in place; on overwrite Put records len(value) as the new value length on every path and re-points the entry at a freshly appended key‖value whenever the value is non-empty, so an entry's recorded value is exactly the last value written; the MemDB buffers are written only by Put, Reset and the constructor. (Same object) in executeBlock result.Hash = overlay.ChangeHash() and result.WriteSet = overlay.GetWriteSet() are taken from the same overlay, after the loop over the block's transactions completed. NOT decided: that ForEach yields ascending key order (skip-list invariant, C09).",
+		Run:       runC11,
 	})
 }
 
@@ -164,30 +165,50 @@ func tombstoneCallback(c *core.Ctx, rule string, fn *ssa.Function, delNames, put
 	c.Decide(okArgs, rule, fn, "the entry's own key (and value) are forwarded", c.P.Rel(fn.Pos()), "")
 }
 
-func closureOf(fn *ssa.Function, idx int) *ssa.Function {
-	if fn == nil || idx >= len(fn.AnonFuncs) {
-		return nil
+// callbacksOf: the per-entry callbacks a function hands to ForEach — anonymous
+// closures, or methods passed as method values (ir.WithClosures resolves both).
+func callbacksOf(fn *ssa.Function) []*ssa.Function {
+	var out []*ssa.Function
+	for _, f := range ir.WithClosures(fn) {
+		if f == fn || f.Synthetic != "" {
+			continue
+		}
+		n := len(f.Params)
+		if n >= 2 && isByteSlice(f.Params[n-1].Type()) && isByteSlice(f.Params[n-2].Type()) {
+			out = append(out, f)
+		}
 	}
-	return fn.AnonFuncs[idx]
+	return out
+}
+
+func isByteSlice(t types.Type) bool {
+	s, ok := t.Underlying().(*types.Slice)
+	if !ok {
+		return false
+	}
+	b, ok := s.Elem().Underlying().(*types.Basic)
+	return ok && b.Kind() == types.Byte
 }
 
 func runC10(c *core.Ctx) {
 	// ---- tombstones
-	if fn := c.Fn(pkNatStorage, "CacheDB.Commit"); fn != nil {
-		tombstoneCallback(c, "C10.tombstone", closureOf(fn, 0), []string{"Delete"}, []string{"Put"})
-	}
-	if fn := c.Fn(pkOverlayDB, "OverlayDB.CommitTo"); fn != nil {
-		tombstoneCallback(c, "C10.tombstone", closureOf(fn, 0), []string{"BatchDelete"}, []string{"BatchPut"})
-	}
-	if fn := c.Fn(pkLedger, "LedgerStoreImp.saveBlockToStateStore"); fn != nil {
-		n := 0
-		for _, an := range fn.AnonFuncs {
-			if len(an.Params) == 2 {
-				tombstoneCallback(c, "C10.tombstone", an, []string{"BatchDeleteRawKey"}, []string{"BatchPutRawKeyVal"})
-				n++
-			}
+	for _, spec := range []struct {
+		pkg, fn  string
+		del, put []string
+	}{
+		{pkNatStorage, "CacheDB.Commit", []string{"Delete"}, []string{"Put"}},
+		{pkOverlayDB, "OverlayDB.CommitTo", []string{"BatchDelete"}, []string{"BatchPut"}},
+		{pkLedger, "LedgerStoreImp.saveBlockToStateStore", []string{"BatchDeleteRawKey"}, []string{"BatchPutRawKeyVal"}},
+	} {
+		fn := c.Fn(spec.pkg, spec.fn)
+		if fn == nil {
+			continue
 		}
-		c.Floor("write-set callback in saveBlockToStateStore", n, 1)
+		cbs := callbacksOf(fn)
+		for _, cb := range cbs {
+			tombstoneCallback(c, "C10.tombstone", cb, spec.del, spec.put)
+		}
+		c.Floor("per-entry (key, val) callback in "+spec.fn, len(cbs), 1)
 	}
 	// ---- reads
 	for _, spec := range []struct{ pkg, fn, below string }{{pkOverlayDB, "OverlayDB.Get", "store"}, {pkNatStorage, "CacheDB.get", "backend"}} {
@@ -258,7 +279,9 @@ func runC10(c *core.Ctx) {
 			continue
 		}
 		var cmp *ssa.Call
-		for _, ci := range ir.Calls(fn, func(ci ssa.CallInstruction) bool { return ci.Common().IsInvoke() && ci.Common().Method.Name() == "Compare" }) {
+		for _, ci := range ir.Calls(fn, func(ci ssa.CallInstruction) bool {
+			return ci.Common().IsInvoke() && ci.Common().Method.Name() == "Compare"
+		}) {
 			cmp, _ = ci.(*ssa.Call)
 		}
 		if cmp == nil {
@@ -293,7 +316,7 @@ func runC10(c *core.Ctx) {
 				if !ok {
 					continue
 				}
-				at := triAt(fn, cmp, b)
+				at := triAtFlow(fn, cmp, b)
 				switch fieldNameOf(fa) {
 				case "value":
 					src := ""
@@ -343,7 +366,9 @@ func runC10(c *core.Ctx) {
 			{"Start", map[int]bool{-1: true}, "Range.Start is inclusive: reject exactly on Compare(key, Start) ∈ {-1}"},
 		} {
 			var cmp *ssa.Call
-			for _, ci := range ir.Calls(fn, func(ci ssa.CallInstruction) bool { return ci.Common().IsInvoke() && ci.Common().Method.Name() == "Compare" }) {
+			for _, ci := range ir.Calls(fn, func(ci ssa.CallInstruction) bool {
+				return ci.Common().IsInvoke() && ci.Common().Method.Name() == "Compare"
+			}) {
 				if isFieldNamed(ci.Common().Args[1], spec.field) && isFieldNamed(ci.Common().Args[0], "key") {
 					cmp, _ = ci.(*ssa.Call)
 				}
@@ -411,6 +436,21 @@ func runC10(c *core.Ctx) {
 								}
 							}
 						}
+					}
+				}
+				// or through the package's own key builder: makePrefixedKey(dst, ST_STORAGE, key)
+				for _, ci := range ir.Calls(fn, func(ci ssa.CallInstruction) bool {
+					f := ci.Common().StaticCallee()
+					return f != nil && f.Name() == "makePrefixedKey"
+				}) {
+					if a := ci.Common().Args; len(a) == 3 {
+						if v, okk := ir.ConstInt(a[1]); okk && v == k {
+							okP = true
+						}
+						// the iterators keep the start key by reference until First(): it must be a fresh
+						// buffer, not the scratch key the next Get/Put overwrites
+						c.Decide(ir.IsNilConst(a[0]), "C10.prefix", fn, "the scan's start key is a fresh buffer (not the shared scratch key)", c.P.Rel(ci.Pos()),
+							"the start key aliases "+a[0].String()+": an access between NewIterator and First() changes the scanned range")
 					}
 				}
 				c.Decide(okP, "C10.prefix", fn, "NewIterator scans under the ST_STORAGE prefix", c.P.Rel(fn.Pos()), "")
@@ -538,9 +578,15 @@ func runC11(c *core.Ctx) {
 		c.Floor("functions reachable from ChangeHash", len(fns), 3)
 	}
 	// ---- coverage of the hashing callback
-	if cb := closureOf(ch, 0); cb != nil {
+	var hashCb *ssa.Function
+	if cbs := callbacksOf(ch); len(cbs) > 0 {
+		hashCb = cbs[0]
+	}
+	if cb := hashCb; cb != nil {
 		var seq []string
-		for _, ci := range ir.Calls(cb, func(ci ssa.CallInstruction) bool { return ci.Common().IsInvoke() && ci.Common().Method.Name() == "Write" }) {
+		for _, ci := range ir.Calls(cb, func(ci ssa.CallInstruction) bool {
+			return ci.Common().IsInvoke() && ci.Common().Method.Name() == "Write"
+		}) {
 			a := ci.Common().Args[0]
 			switch ir.Strip(a) {
 			case ssa.Value(cb.Params[0]):
@@ -605,7 +651,10 @@ func runC11(c *core.Ctx) {
 		fn := put
 		valP := paramByName(fn, "value")
 		var fge *ssa.Call
-		for _, ci := range ir.Calls(fn, func(ci ssa.CallInstruction) bool { f := ci.Common().StaticCallee(); return f != nil && f.Name() == "findGE" }) {
+		for _, ci := range ir.Calls(fn, func(ci ssa.CallInstruction) bool {
+			f := ci.Common().StaticCallee()
+			return f != nil && f.Name() == "findGE"
+		}) {
 			fge, _ = ci.(*ssa.Call)
 		}
 		if fge == nil || valP == nil {
